@@ -3,7 +3,7 @@
    The model (Evo/Evo.v + C07/Model.v) is tied to /repo by the correspondence check of harness/c07.py. *)
 From Coq Require Import List NArith QArith Bool Ascii.
 Import ListNotations.
-From AgileV Require Import Evo.Heap Evo.Evo Evo.EvoProofs C07.Model C07.Proofs C07.ProofsAbs C07.ProofsInv.
+From AgileV Require Import Evo.Heap Evo.Evo Evo.EvoProofs C07.Model C07.Proofs C07.ProofsAbs C07.ProofsInv C07.ProofsShare.
 Open Scope N_scope.
 
 (* LOAD_SAVE_ABS — for every agent a (ANY architecture descriptors, block sizes, contents, optimizers, hyper-parameters,
@@ -165,6 +165,32 @@ Proof.
          end).
 Qed.
 Print Assumptions checkpoint_keys_injective.
+
+(* EVERY REGISTRY, shared encoders included (load_save_abs, partial form) — for every savable agent whose encoder blocks
+   are empty exactly where the registry's share hooks hide them ([share_savedb], computed by K on every saved agent: every agent saved in its shared state; for
+   registries without share hook the condition is void): the restored agent has the saved index, label, architecture
+   descriptors, optimizer settings, hyper-parameters, registry, block structure, and the saved content in every cell of
+   every block that is NOT hidden (all weights, targets, buffers, size lists, optimizer state, RL-param objects,
+   bookkeeping, ext tensors).  The hidden encoder copies are the only thing a checkpoint loses
+   (share_hidden_lost_refuted shows that they are lost). *)
+Theorem load_save_visible : forall (s : store) (a : agent),
+  savable a = true -> Forall (fun l => l < s_next s) (agent_locs a) -> share_savedb a = true ->
+  let r := roundtrip s a in
+  (a_index (snd r) = a_index a /\ a_mut (snd r) = a_mut a /\ a_arch (snd r) = a_arch a /\ opt_view (snd r) = opt_view a /\
+   a_hps (snd r) = a_hps a /\ a_reg (snd r) = a_reg a) /\
+  map fst (a_blocks (snd r)) = map fst (a_blocks a) /\
+  (forall k, In k (map fst (a_blocks a)) -> is_hidden k = false ->
+     map (rd (fst r)) (blk (snd r) k) = map (rd s) (blk a k)).
+Proof. exact (fun s a SV B SS => load_save_visible_lemma s a SV B (share_savedb_sound a SS)). Qed.
+Print Assumptions load_save_visible.
+
+(* non-vacuity: the PPO-like agent with a shared encoder used in the refutation satisfies the hypotheses *)
+Example load_save_visible_hyps :
+  savable agent_share = true /\ Forall (fun l => l < s_next store_share) (agent_locs agent_share) /\ share_savedb agent_share = true.
+Proof.
+  split; [vm_compute; reflexivity|]. split; [|vm_compute; reflexivity].
+  apply Forall_forall. intros l Hl. vm_compute in Hl. vm_compute. repeat (destruct Hl as [<-|Hl]; [reflexivity|]). contradiction.
+Qed.
 
 (* REFUTED on the current tree (known finding restore:{DDPG,TD3,PPO}+share:*:henc) — with a shared encoder the
    critic's detached encoder copy is not in the file; the restored critic holds a copy of the newly constructed
